@@ -149,7 +149,9 @@ func runAll(repo, verif string) int {
 		func() {
 			defer func() {
 				if r := recover(); r != nil {
-					c.Fail("internal", "analyser panic", "", fmt.Sprint(r))
+					// a crash of the analyser says nothing about the code under analysis: not decided
+					// (the unchanged tree is required to run without one: see the vacuity guards)
+					c.Undecided("internal", "analyser panic", fmt.Sprint(r))
 				}
 			}()
 			props.All[id](c)
@@ -219,7 +221,7 @@ func run(id, tier, repo, verif string) (code int) {
 				if os.Getenv("GMSL_DEBUG") != "" {
 					debug.PrintStack()
 				}
-				c.Fail("internal", "analyser panic", "", fmt.Sprint(r))
+				c.Undecided("internal", "analyser panic", fmt.Sprint(r))
 			}
 		}()
 		fn(c)
